@@ -1,8 +1,13 @@
 """C17 — incrementally inferred search spaces equal a from-scratch computation.
 
-translate:  verif/translators/search_space.py regenerates Generated/SearchSpaceCode.lean (the integer
-            expressions and state lists of `_calculate`) from the Python source, so the theorems are
-            re-checked against what the code says now.
+translate:  verif/translators/tspace.py (via verif/props/c17_gen.py) regenerates Generated/SearchSpaceMethods.lean: the whole
+            bodies of `_calculate`, `IntersectionSearchSpace.calculate`, `intersection_search_space`,
+            `_SearchSpaceGroup.add_distributions`, `_GroupDecomposedSearchSpace.calculate` as statement IR; Props/C17Gen.lean
+            proves the interpreter of the generated methods equal to the hand model for all inputs and restates the theorems
+            for it.  verif/translators/search_space.py still regenerates Generated/SearchSpaceCode.lean (the integer
+            expressions and state lists); Props/C17Gen.lean pins them to the constants of the hand model
+            (`code_constants_pinned`).  The sub-driver steps a second system through the generated calculators on every
+            action ("gen" field).
 prove:      Props/C17.lean (cursor invariant preserved by every step of every history =>
             incremental_eq_scratch, never_grows, include_pruned variant, scratch_is_intersection;
             groups_partition / trial_is_union_of_groups / groups_canonical / groups_history).
@@ -35,6 +40,7 @@ from optuna.search_space import intersection_search_space
 from optuna.trial import TrialState, create_trial
 
 from verif import core
+from verif.props import c17_gen
 from verif.translators import search_space as translator
 
 optuna.logging.set_verbosity(optuna.logging.ERROR)
@@ -86,6 +92,11 @@ def tok(d: BaseDistribution) -> int:
 for _n in NAMES:
     for _d in POOL[_n]:
         tok(_d)
+
+
+def single_tokens() -> list[int]:
+    """the tokens whose distribution answers single() == True (handed to the generated `add_distributions`)"""
+    return [i for i, d in enumerate(_TOKENS) if d.single()]
 
 
 def items_of(d: dict[str, BaseDistribution]) -> list[list[Any]]:
@@ -230,12 +241,18 @@ class Runner:
         self._ooo_pending: set[int] = set()   # lower-numbered trials that were unfinished when a higher one finished
         self._ooo_called = False
         self._catchup = False
+        self.gen_diff: Any = None   # first answer on which the interpreter of the generated methods differs from the hand model
         if drv is not None:
-            r = drv.ask({"op": "reset", "sid": MODEL_SID, "ipI": self.ipI, "ipG": self.ipG})
+            r = drv.ask({"op": "reset", "sid": MODEL_SID, "ipI": self.ipI, "ipG": self.ipG, "single": single_tokens()})
             if r.get("k") != "reset":
                 raise core.DriverBroken("reset: %s" % r)
 
     # -- helpers
+    def _note_gen(self, resp: Any, where: str) -> None:
+        d = c17_gen.gen_disagreement(resp)
+        if d is not None and self.gen_diff is None:
+            self.gen_diff = {"at_action": self.stats["actions"], "where": where, "diff": d}
+
     def _unfinished(self, state: int) -> list[int]:
         return [t[0] for t in self.snap if t[1] == state]
 
@@ -261,6 +278,7 @@ class Runner:
             resp = None
             for j, st in enumerate(steps):
                 resp = self.drv.ask(dict(st, dump=(j == len(steps) - 1)))
+                self._note_gen(resp, st["op"])
                 if resp.get("out", {}).get("k") != "ok":
                     raise Failure("history-model", "step-rejected", "the model rejected step %s: %s" % (st, resp))
             model = [(t[0], t[1], tuple(sorted((p[0], p[1]) for p in t[2]))) for t in resp["trials"]]
@@ -382,6 +400,7 @@ class Runner:
                                  "trials": [[t[0], t[1], [list(p) for p in t[2]]] for t in self.other_snap]})
             if kind == "result":
                 self.stats["foreign_bound"] += 1
+        self._note_gen(resp, "callI" if ours else "callForeign")
         out = resp.get("out", {})
         if out.get("k") != kind or (kind == "result" and out.get("d") != got):
             raise Failure("correspondence", "intersection-output",
@@ -407,6 +426,7 @@ class Runner:
         check_groups(groups, [t for t in self.snap if of_interest(t[1], ip)], "include_pruned=%s" % ip)
         if with_model and self.drv is not None:
             resp = self.drv.ask({"op": "callG"})
+            self._note_gen(resp, "callG")
             out = resp.get("out", {})
             mg = [sorted(g) for g in out.get("g", [])] if out.get("k") == "groups" else None
             if mg != groups:
@@ -490,6 +510,14 @@ def run_case(case: dict[str, Any], tmp: str, tag: str, drv: core.Driver | None) 
             return {"ok": False, "kind": f.kind, "what": f.what, "msg": f.msg, "step": i, "detail": f.detail, "stats": rn.stats}
         except HistoryModelBroken as e:
             return {"ok": False, "kind": "history-model", "what": "storage-fact", "msg": str(e), "step": i, "detail": None, "stats": rn.stats}
+    if rn.gen_diff is not None:
+        # the real calculators passed every oracle and agree with the hand model, but the interpreter of the methods generated
+        # from the source does not agree with the hand model (reported only when nothing else failed in this history)
+        g = rn.gen_diff
+        return {"ok": False, "kind": "correspondence", "what": "generated-vs-hand",
+                "msg": "interpreter of the methods generated from the source differs from the hand model (Model/SearchSpace.lean) at `%s`: %s" % (
+                    g["where"], json.dumps(g["diff"])[:400]),
+                "step": max(0, g["at_action"] - 1), "detail": g, "stats": rn.stats}
     return {"ok": True, "stats": rn.stats}
 
 
@@ -680,10 +708,17 @@ def functions(chk: core.Check, n: int) -> None:
                 chk.violation({"what": f.what, "backend": "function"}, {"fn": "add_distributions", "added": [list(map(list, t[2])) for t in added], "observed": f.detail},
                               "%s after add_distributions calls: %s" % (f.what, f.msg))
                 return
-            jobs.append({"op": "add", "groups": before, "d": items_of(d)})
+            jobs.append({"op": "add", "groups": before, "d": items_of(d), "single": single_tokens()})
             expect.append(("add", {"fn": "add_distributions", "groups": before, "d": items_of(d)}, {"g": after}))
     outs = core.driver_batch("searchspace", jobs)
     for (kind, case, exp), out in zip(expect, outs):
+        g = c17_gen.gen_disagreement(out)
+        if isinstance(out, dict):
+            out = {k: v for k, v in out.items() if k != "gen"}
+        if g is not None:
+            chk.broke("correspondence", {"what": "function:%s: interpreter of the generated method differs from the hand model" % kind,
+                                         "case": case, "gen": g})
+            return
         if kind == "add":
             out = {"g": [sorted(g) for g in out.get("g", [])]}
         if out != exp:
@@ -707,8 +742,10 @@ def search(chk: core.Check) -> None:
 def main(chk: core.Check) -> int:
     chk.rule = RULE
     translator.run(chk)
+    c17_gen.regenerate(chk)  # T-space: Generated/SearchSpaceMethods.lean from intersection.py / group_decomposed.py
     if not getattr(chk, "no_prove", False):
-        chk.prove()
+        chk.prove(["OptunaVerif.Props.C17", c17_gen.MODULE])
+        c17_gen.explain_proof_failure(chk)
     quick = chk.tier == "quick"
     try:
         core.ensure_driver()
@@ -726,7 +763,8 @@ def main(chk: core.Check) -> int:
         "numbers dense in creation order and finished trials frozen are theorems of C01 about the storage contract; here they are re-observed on every action by diffing the trial list",
         "SQLite stands for every RDB dialect; private attributes (_cached_trial_number, _search_space, _calculate) are compared only while they exist",
     ]
-    chk.trusted += ["the skeleton matcher and expression translator of verif/translators/search_space.py"]
+    chk.trusted += ["the skeleton matcher and expression translator of verif/translators/search_space.py",
+                    "T-space (verif/translators/tspace.py): the whitelisted source shapes are mapped to the primitives of Model/SpaceIR.lean as documented there"]
     return chk.finish(search=search)
 
 
@@ -761,6 +799,8 @@ def replay(chk: core.Check, path: str) -> int:
         print("REPRODUCED on %s at action %d (%s): %s" % (w["backend"], res["step"], res["what"], res["msg"]))
         return 1
     try:
+        translator.run(chk)
+        c17_gen.regenerate(chk)  # the sub-driver links the methods generated from the tree under test
         core.ensure_driver()
         drv = core.Driver("searchspace")
         try:
